@@ -183,6 +183,133 @@ type probeRun struct {
 	hist    []string
 	failed  bool            // a panic: stop the history
 	failedP map[string]bool // properties that already reported a failure in this history (first one only)
+	cloneRel map[*ajson.Node]bool // nodes that were the source or the result of a Clone (C14: edits on one side never show on the other)
+}
+
+// involved: the nodes a mutation request names (receiver and arguments).
+func (p *probeRun) involved(f []string) []*ajson.Node {
+	var out []*ajson.Node
+	add := func(n *ajson.Node) {
+		if n != nil {
+			out = append(out, n)
+		}
+	}
+	add(p.s.node(f[1]))
+	switch f[0] {
+	case "apparr", "setarr":
+		for _, n := range p.s.ids(f[2]) {
+			add(n)
+		}
+	case "setobj":
+		for _, n := range p.s.kv(f[2]) {
+			add(n)
+		}
+	case "appobj":
+		add(p.s.node(f[3]))
+	case "setnode", "delnode":
+		add(p.s.node(f[2]))
+	}
+	return out
+}
+
+// treeFP: everything the public API says about one tree, identities numbered in walk order.
+func treeFP(root *ajson.Node) string {
+	var order []*ajson.Node
+	num := map[*ajson.Node]int{}
+	var visit func(n *ajson.Node, depth int)
+	visit = func(n *ajson.Node, depth int) {
+		if n == nil || depth > 200 {
+			return
+		}
+		if _, ok := num[n]; ok {
+			return
+		}
+		num[n] = len(order)
+		order = append(order, n)
+		for _, c := range n.Inheritors() {
+			visit(c, depth+1)
+		}
+	}
+	visit(root, 0)
+	var b strings.Builder
+	for i, n := range order {
+		acc := ""
+		if n.IsObject() {
+			if m, err := n.GetObject(); err == nil {
+				keys := make([]string, 0, len(m))
+				for k := range m {
+					keys = append(keys, k)
+				}
+				sort.Strings(keys)
+				for _, k := range keys {
+					acc += fmt.Sprintf("%x=%s,", k, numOf(num, m[k]))
+				}
+			} else {
+				acc = errCode(err)
+			}
+		} else if n.IsArray() {
+			if a, err := n.GetArray(); err == nil {
+				for _, c := range a {
+					acc += numOf(num, c) + ","
+				}
+			} else {
+				acc = errCode(err)
+			}
+		}
+		pos := ""
+		if par := n.Parent(); par != nil {
+			if par.IsArray() {
+				pos = "i" + strconv.Itoa(n.Index())
+			} else {
+				pos = "k" + fmt.Sprintf("%x", n.Key())
+			}
+		}
+		keys := n.Keys() // in map order
+		sort.Strings(keys)
+		fmt.Fprintf(&b, "%d:t%d p%s %s size%d keys%x dirty%v src%x acc=%s;", i, int(n.Type()), numOf(num, n.Parent()), pos, n.Size(), keys, n.IsDirty(), n.Source(), acc)
+	}
+	v, err := root.Unpack()
+	if err != nil {
+		b.WriteString(" val=" + errCode(err))
+	} else {
+		b.WriteString(" val=" + canonValue(v))
+	}
+	b.WriteString(" marshal=" + marshalObs(root))
+	return b.String()
+}
+
+// frameBefore: the fingerprints of all trees a mutation request does not name.
+func (p *probeRun) frameBefore(f []string) map[*ajson.Node]string {
+	named := map[*ajson.Node]bool{}
+	for _, n := range p.involved(f) {
+		named[rootOf(n)] = true
+	}
+	out := map[*ajson.Node]string{}
+	for _, n := range p.liveNodes() {
+		r := rootOf(n)
+		if _, ok := out[r]; !ok && !named[r] {
+			out[r] = treeFP(r)
+		}
+	}
+	return out
+}
+
+func (p *probeRun) frameAfter(f []string, before map[*ajson.Node]string) {
+	p.o.Check("C05", "frame")
+	p.o.Check("C14", "clone-independent")
+	for r, fp := range before {
+		after := "attached to " + r.Path()
+		if r.Parent() == nil {
+			after = treeFP(r)
+		}
+		if after != fp {
+			prop, probe := "C05", "frame"
+			if p.cloneRel[r] {
+				prop, probe = "C14", "clone-independent"
+			}
+			p.fail(prop, probe, "a tree the request does not name changed: "+strings.Join(f, " "), firstDiff(fp, after), "")
+		}
+	}
 }
 
 type guarded struct {
@@ -305,7 +432,31 @@ func (p *probeRun) publicFingerprint() string {
 				pos = "k" + fmt.Sprintf("%x", n.Key())
 			}
 		}
-		fmt.Fprintf(&b, "%d:t%d p%s %s size%d dirty%v src%x val=%s marshal=%s path=%x;", i, int(n.Type()), numOf(num, n.Parent()), pos, n.Size(), n.IsDirty(), n.Source(), val, marshalObs(n), n.Path())
+		// what the container accessors hand out (GetObject/GetArray answer from the cache cell, Unpack from the child map)
+		acc := ""
+		if n.IsObject() {
+			if m, err := n.GetObject(); err == nil {
+				keys := make([]string, 0, len(m))
+				for k := range m {
+					keys = append(keys, k)
+				}
+				sort.Strings(keys)
+				for _, k := range keys {
+					acc += fmt.Sprintf("%x=%s,", k, numOf(num, m[k]))
+				}
+			} else {
+				acc = errCode(err)
+			}
+		} else if n.IsArray() {
+			if a, err := n.GetArray(); err == nil {
+				for _, c := range a {
+					acc += numOf(num, c) + ","
+				}
+			} else {
+				acc = errCode(err)
+			}
+		}
+		fmt.Fprintf(&b, "%d:t%d p%s %s size%d dirty%v src%x val=%s acc=%s marshal=%s path=%x;", i, int(n.Type()), numOf(num, n.Parent()), pos, n.Size(), n.IsDirty(), n.Source(), val, acc, marshalObs(n), n.Path())
 	}
 	hs := make([]string, len(p.s.handles))
 	for i, h := range p.s.handles {
@@ -706,7 +857,23 @@ func isMutation(op string) bool {
 // probeHistory executes a recorded history again and evaluates the properties on the implementation
 // after every step.
 func probeHistory(o *Out, ops [][]string) {
-	p := &probeRun{o: o, s: &Session{}, ref: map[*ajson.Node]*Ref{}}
+	p := &probeRun{o: o, s: &Session{softHandles: true}, ref: map[*ajson.Node]*Ref{}}
+	defer func() {
+		if r := recover(); r != nil {
+			bh, ok := r.(badHandle)
+			if !ok {
+				panic(r)
+			}
+			// the second execution of the history diverged from the first. After a reported failure that is expected
+			// (a half-applied failed operation depends on map iteration order); without one, the divergence itself is
+			// reported: the same requests gave different answers.
+			if len(p.failedP) > 0 {
+				o.Stat("history.abandoned-after-failure")
+				return
+			}
+			o.Fail("C05", "deterministic-replay", "the same history, executed twice, binds different handles (handle "+string(bh)+" missing the second time)", strings.Join(p.hist, "\n"), "", "")
+		}
+	}()
 	for _, f := range ops {
 		if p.failed {
 			return
@@ -726,9 +893,11 @@ func (p *probeRun) step(f []string, check bool) string {
 	}
 	nBefore := len(p.s.handles)
 	var pubBefore, privBefore string
+	var frame map[*ajson.Node]string
 	mutation := isMutation(op)
 	if check {
 		if mutation {
+			frame = p.frameBefore(f)
 			pubBefore = p.publicFingerprint()
 		} else {
 			privBefore = p.privateFingerprint(nBefore)
@@ -737,6 +906,7 @@ func (p *probeRun) step(f []string, check bool) string {
 	// the parse op hands the library a guarded sub-slice
 	var obs string
 	if op == "parse" {
+		noteOp(f)
 		data := unhex(f[1])
 		buf := bytes.Repeat([]byte{0xAA}, len(data)+24)
 		copy(buf[8:], data)
@@ -803,6 +973,11 @@ func (p *probeRun) step(f []string, check bool) string {
 			if sr := p.ref[src]; sr != nil {
 				p.link(n, sr.deepCopy())
 			}
+			if p.cloneRel == nil {
+				p.cloneRel = map[*ajson.Node]bool{}
+			}
+			p.cloneRel[rootOf(src)] = true
+			p.cloneRel[n] = true
 			if check {
 				p.checkClone(src, n)
 			}
@@ -824,6 +999,10 @@ func (p *probeRun) step(f []string, check bool) string {
 		if after := p.publicFingerprint(); after != pubBefore {
 			p.fail("C15", "error-atomic", "a mutation returned an error but the forest changed: "+strings.Join(f, " ")+" -> "+obs, firstDiff(pubBefore, after), "")
 		}
+	}
+	// C05/C14: a mutation changes only the trees it names (receiver's and arguments'); a clone and its source never share
+	if mutation {
+		p.frameAfter(f, frame)
 	}
 	// C13: reads, comparisons, Clone, navigation leave the document unchanged
 	if !mutation && op != "parse" && !isConstructor(op) {
